@@ -181,6 +181,7 @@ fn long_prefix_family(ctx: &Ctx, cfg: &Cfg) -> JobOut {
         (0..n + 2).map(|i| cont_alpha[i % 3]).collect(),
         (0..n + 2).map(|i| if i == 0 { cont_alpha[3] } else { cont_alpha[(i + 1) % 3] }).collect(),
         (0..n + 2).map(|i| if i == n { cont_alpha[4] } else { cont_alpha[2 - i % 3] }).collect(),
+        (0..n + 2).map(|i| if i == 0 { cont_alpha[5] } else { cont_alpha[i % 3] }).collect(),
     ];
     for st in &streams {
         for l in 0..=len {
